@@ -1,6 +1,6 @@
 (* C08 — device-flow polling stops at the first decisive reply and at the deadline.
    Statements only; proofs in proofs/DevicePoll_proofs.v. *)
-From OA Require Import Bytes DevicePoll DevicePoll_proofs.
+From OA Require Import Bytes DevicePoll DevicePoll_proofs DeviceKinds Http Http_proofs.
 From Coq Require Import ZArith.
 Local Open Scope N_scope.
 
@@ -75,6 +75,12 @@ Theorem C08_run :
     (ENow t0 :: fst (poll_loop (pc_req_ok c) (ceiling_of c) dl (pc_interval_s c * NS) clock script),
      snd (poll_loop (pc_req_ok c) (ceiling_of c) dl (pc_interval_s c * NS) clock script)).
 Proof. exact run_some. Qed.
+
+(* which HTTP replies are pending / slow_down / decisive: the 19 scripted server behaviours of the
+   correspondence runs are classified by the Endpoint + JSON + serde model (one device-token
+   exchange = endpoint_response with the device error family) exactly as the loop model assumes *)
+Theorem C08_reply_classes : forallb kind_consistent kinds = true.
+Proof. exact kinds_consistent. Qed.
 
 (* non-vacuity: deadline 10 s after start; the fourth reading is past it *)
 Example C08_example :
